@@ -440,6 +440,9 @@ func (f *Flow) nilness(v ssa.Value, seen map[ssa.Value]bool) int {
 				continue
 			}
 			k := f.nilness(e, seen)
+			if k == 0 && KnownNonNil(x.Block().Preds[i], e) {
+				k = 1 // the edge comes from a block only reached with e != nil established
+			}
 			if k == 0 {
 				return 0
 			}
